@@ -25,7 +25,7 @@ pub fn def() -> CheckDef {
         info: CheckInfo {
             id: "C07",
             level: "exploration",
-            rule: "seeded runs of two kinds, each on the in-memory store or (one run in three) on the real local-filesystem transport on tmpfs behind the same interceptor. (history) C02-style histories including backups killed before an operation or leaving a zero-length file, resumed backups, deletes and gc: after every step the operation log and a byte-for-byte before/after image of the store are checked (backup: every pre-existing non-empty file identical, no removal, no successful write onto a non-empty file, no path written twice, new band id above all existing; delete: writes only GC_LOCK, removes only requested band directories, blocks unreferenced by the kept bands, and GC_LOCK). (race) two backups of different source trees as two simulated processes under all single-preemption schedules in both orders plus seeded random schedules: at most one process may write under any band directory, nothing pre-existing changes. Non-trivial: a history with at least two archive-changing steps, or a race in which both processes reached band creation; distinct = distinct (state-hash sequence | interleaving trace hash).",
+            rule: "seeded runs of two kinds, each on the in-memory store or (one run in three) on the real local-filesystem transport on tmpfs behind the same interceptor. (history) C02-style histories including backups killed before an operation or leaving a zero-length file, resumed backups, deletes and gc: after every step the operation log and a byte-for-byte before/after image of the store are checked (backup: every pre-existing non-empty file identical, no removal, no successful write onto a non-empty file, no path written twice, new band id above all existing; delete: writes only GC_LOCK, removes only requested band directories, blocks unreferenced by the kept bands, and its own GC_LOCK; after every step a restore, a quick validation and a listing must perform no mutating storage operation at all). (race) two backups of different source trees as two simulated processes under all single-preemption schedules in both orders plus seeded random schedules: at most one process may write under any band directory, nothing pre-existing changes. Non-trivial: a history with at least two archive-changing steps, or a race in which both processes reached band creation; distinct = distinct (state-hash sequence | interleaving trace hash).",
             assumptions: &[
                 "completing a zero-length leftover of a killed write is allowed; create_dir on an existing directory is not a write",
                 "LocalDisk runs execute the real tokio::fs calls of transport/local.rs one at a time on /dev/shm",
@@ -43,6 +43,7 @@ pub fn def() -> CheckDef {
             "race_loser_failed",
             "zero_length_leftover_completed",
             "delete_step_checked",
+            "reading_operations_checked",
             "interrupted_backup",
         ],
     }
@@ -276,6 +277,19 @@ fn execute_found(sc: &Scenario, acc: &mut Acc) -> Result<Vec<Found>, String> {
                 }
                 _ => {}
             }
+            // "Only an explicit delete or gc removes files" - and only a backup adds them:
+            // reading operations leave the archive as it is (whatever a killed write left)
+            if matches!(step, Step::Backup { .. } | Step::Delete { .. }) {
+                let from = w.core.log_len();
+                let _ = w.restore(&crate::world::RestoreSpec::default());
+                let _ = w.validate(true);
+                let _ = w.list(None, "/", &[]);
+                acc.calls += 3;
+                for r in w.core.log_since(from).iter().filter(|r| r.mutated()) {
+                    out.push(Violation::new(prop, "reading_operations_change_nothing", format!("{}:{}", r.verb, path_class(&r.path)), format!("after step {si}: restore/validate/list performed {}", r.line())));
+                }
+                acc.hit("reading_operations_checked");
+            }
         }
         if state_seq.len() >= 2 {
             acc.nontrivial.insert(rng::mix(&state_seq));
@@ -299,6 +313,7 @@ fn execute_found(sc: &Scenario, acc: &mut Acc) -> Result<Vec<Found>, String> {
     if enumerate {
         // lengths are learnt from a sequential run in a scratch world built the same way
         let mut pw = World::new(sc.env.clone(), sc.root_meta);
+        pw.set_clock_div(clock_div);
         let mut a0 = Acc::default();
         for step in prefix {
             exec_step(&mut pw, step, &mut a0, false)?;
@@ -325,6 +340,7 @@ fn execute_found(sc: &Scenario, acc: &mut Acc) -> Result<Vec<Found>, String> {
     for schedule in schedules {
         // a fresh world per schedule (local-disk worlds cannot be forked)
         let mut cw = World::new(sc.env.clone(), sc.root_meta);
+        cw.set_clock_div(clock_div);
         let mut a0 = Acc::default();
         for step in prefix {
             exec_step(&mut cw, step, &mut a0, false)?;
